@@ -682,14 +682,28 @@ class LedgerCheck:
                     if any((key[0] == "task" and key[1] == t) or (key[0] == "batch" and t in cm.members[key]) for key in cm.holders):
                         continue
                     hist.append((op, cop, f"T{t}", k))
-                    plain = [key for key in cm.holders if key[0] == "task"]
-                    if plain and rng.random() < 0.4:
-                        # remove a resident of the copy: the original must keep it
+                    plain = [key for key in cm.holders if key[0] != "profile"]
+                    if plain and rng.random() < 0.45:
+                        # remove a resident of the copy (a plain task or a member of a batch): the original must keep it,
+                        # and the copy must follow its own history like any worker (a batch is released with its last member)
                         key = rng.choice(plain)
-                        hist.append(("copy_remove", f"T{key[1]}"))
-                        cw.remove_task(self.ET.zero(), tasks[key[1]])
-                        cm.release(key)
+                        rt = rng.choice(sorted(cm.members[key])) if key[0] == "batch" else key[1]
+                        hist.append(("copy_remove", f"T{rt}"))
+                        cw.remove_task(self.ET.zero(), tasks[rt])
+                        if key[0] == "batch":
+                            cm.members[key].discard(rt)
+                            self.bump("removed_batch_member_on_copy")
+                            if not cm.members[key]:
+                                del cm.members[key]
+                                cm.release(key)
+                                self.bump("batch_emptied_on_copy")
+                                if any(k2[0] == "batch" for k2 in cm.holders):
+                                    self.bump("batch_emptied_on_copy_beside_another_batch")
+                        else:
+                            cm.release(key)
                         self.bump("removed_on_copy")
+                        if cop == "copy":
+                            self.expect_worker(cm, self.observe_worker(cw, cap, tasks, strategies), sspec, hist, label + " (state of the copy)")
                         for ci, ent in enumerate(copies):
                             if ent[1] is cw:
                                 copies[ci] = (ent[0], ent[1], ent[2], ent[3], self.observe_worker(cw, cap, tasks, strategies))
@@ -719,6 +733,23 @@ class LedgerCheck:
                     con = self.observe_worker(cw, cap, tasks, strategies)
                     if con != co0:
                         self.bad("copy_not_independent", f"{label}: the {cop} taken earlier changed when the original was mutated", hist)
+        # drain the shallow copies first: each must return to full capacity on its own
+        try:
+            for c, cw, cm, cop, _ in copies:
+                if cop != "copy" or not any(key[0] != "profile" for key in cm.holders):
+                    continue
+                for key in list(cm.holders):
+                    if key[0] == "profile":
+                        continue
+                    for t in (sorted(cm.members[key]) if key[0] == "batch" else [key[1]]):
+                        cw.remove_task(self.ET.zero(), tasks[t])
+                    cm.members.pop(key, None)
+                    cm.release(key)
+                hist.append(("drain_copy",))
+                self.bump("copies_drained")
+                self.expect_worker(cm, self.observe_worker(cw, cap, tasks, strategies), sspec, hist, "after removing every task from a shallow copy")
+        except Exception as e:
+            self.bad(f"unexpected_exception:{type(e).__name__}", f"draining a copy: {type(e).__name__}: {e}", hist)
         # drain: remove everything, full capacity must return
         try:
             for key in list(m.holders):
@@ -1006,7 +1037,7 @@ class LedgerCheck:
         need = {"kind_place_ok": 500, "kind_place_refused": 500, "kind_remove": 500, "kind_remove_refused": 300,
                 "kind_copy": 500, "kind_deepcopy": 300, "kind_load": 300, "kind_evict": 200, "kind_mutate_copy": 200,
                 "kind_batch_emptied": 100, "e2e_idle_capacity_checks": 1000, "direct_place_task_calls": 1000,
-                "copies_of_worker_pools": 1000, "copies_of_saturated_worker_pools": 100, "removed_on_copy": 100,
+                "copies_of_worker_pools": 1000, "copies_of_saturated_worker_pools": 100, "removed_on_copy": 100, "copies_drained": 1000, "removed_batch_member_on_copy": 30,
                 "pool_histories": 3000, "pool_views": 2000, "pool_profile_loads": 1000, "pool_profile_evictions": 300,
                 "pkind_load_all": 300, "pkind_evict_all": 50}
         inconclusive = [f"{k} seen {tot.get(k, 0)} times (< {v})" for k, v in need.items() if tot.get(k, 0) < v]
